@@ -27,6 +27,7 @@ type FuncReport struct {
 	Notes       []string
 	Seconds     float64
 	FeasCalls   int
+	Unreached   []string // blocks of the function no explored path entered (panic blocks excluded): a vacuity indicator
 }
 
 type VerifyOpts struct {
@@ -146,6 +147,28 @@ func (p *Program) Explore(key string, opts *VerifyOpts) (*Exec, *FuncReport, err
 		Intrinsics: sortedKeys(x.usedExt), Inlined: sortedKeys(x.inlined), UsedContr: sortedKeys(x.usedContracts), Notes: sortedKeys(x.notes)}
 	if x.incr != nil {
 		rep.FeasCalls = x.incr.Calls
+	}
+	if len(x.unsup) == 0 {
+		for _, b := range fn.Blocks {
+			if x.visited[b] || isPanicBlock(b) || len(b.Instrs) == 0 || b == fn.Recover {
+				continue
+			}
+			// synthetic blocks (run-defers epilogues, range-loop scaffolding) carry no source position
+			hasPos := false
+			for _, in := range b.Instrs {
+				if in.Pos().IsValid() {
+					hasPos = true
+				}
+			}
+			if !hasPos {
+				continue
+			}
+			// a block that only leads to a panic (util.Assert failure handlers) is not interesting either
+			if len(b.Succs) == 1 && isPanicBlock(b.Succs[0]) {
+				continue
+			}
+			rep.Unreached = append(rep.Unreached, fmt.Sprintf("block %d @ %s", b.Index, x.prog.pos(b.Instrs[0].Pos())))
+		}
 	}
 	if opts.Props != nil {
 		var keep []*Obligation
